@@ -405,7 +405,7 @@ class Explorer:
         if not disj:
             return None
         s = z3.Solver()
-        s.set("timeout", 10000)
+        s.set("timeout", 3000)
         atoms = set(memo.get("atoms", set()))
         for c in self.pc:
             atoms |= c.atoms()
